@@ -3,6 +3,7 @@ package sim
 import (
 	"encoding/json"
 	"fmt"
+	"time"
 
 	"github.com/compose-spec/compose-go/v2/zsimrt"
 )
@@ -16,7 +17,7 @@ func init() {
 }
 
 func c01fRun(c *Ctx, r *zsimrt.Run) {
-	L := GenLayout(r)
+	L := c01Layout(r)
 	g := &G{R: r, feat: map[string]bool{}, L: L}
 	switch r.Draw("entry", 6) {
 	case 0:
@@ -44,7 +45,19 @@ func c01fRun(c *Ctx, r *zsimrt.Run) {
 	events := append([]zsimrt.IOEvent(nil), fs.Events...)
 	seen := map[string]bool{}
 	n := 0
-	for _, e := range events {
+	// a layout with very many I/O events is enumerated with a stride, and never past the worker's time budget
+	stride := 1
+	if len(events) > 60 {
+		stride = (len(events) + 59) / 60
+	}
+	for ei, e := range events {
+		if ei%stride != 0 {
+			continue
+		}
+		if time.Now().After(c.Deadline) {
+			c.Count("enumerations-cut-short-by-time-budget", 1)
+			break
+		}
 		var kinds []string
 		switch e.Op {
 		case "readfile", "open":
